@@ -1,16 +1,20 @@
 # C15 — prefetch / background fetch / prefetch waiter of a layer (fs/layer, fs/reader, fs/remote, cache)
 PROPS["C15"] = dict(
     props_file="Properties/C15.v",
-    harnesses=[dict(cmd="prefetch", mod="root", model="Model.Prefetch", quick=100, thorough=4000, shard=34, coq_jobs=8,
-                    require=["lm.prefetch", "lm.noprefetch", "lm.none", "cache.fs.memory", "cache.fs.dir", "cache.http.dir",
+    harnesses=[dict(cmd="prefetch", mod="root", model="Model.Prefetch", quick=60, thorough=3000, shard=30, coq_jobs=8,
+                    require=["lm.prefetch", "lm.noprefetch", "lm.none", "store.memory", "cache.fs.memory", "cache.fs.dir", "cache.http.dir",
                              "cache.dir.sync", "cache.dir.async", "layout.minchunk", "layout.zstd", "cfg.pcs>cs",
                              "op.pf", "op.pf.fail", "op.pf.stall", "op.pf.concurrent", "op.rel", "op.wait", "op.wait.concurrent",
                              "op.readprio", "op.readall", "op.bg", "op.bg.intf", "op.bg.concurrent", "op.off", "op.hold", "op.settle",
                              "result.pf.ok", "result.pf.err", "result.pf.stalled", "result.pf.requests", "result.pf.keys",
-                             "result.wait.ok", "result.wait.timeout", "result.bg.ok", "files.prio", "files.multichunk"])],
+                             "result.wait.ok", "result.wait.timeout", "result.bg.ok", "files.prio", "files.multichunk"]),
+               # the same harness (package verif/harness/prefetchx) linked with the bbolt metadata store of /repo/cmd as well
+               dict(cmd="prefetchdb", mod="cmdmod", model="Model.Prefetch", quick=30, thorough=1500, shard=30, coq_jobs=8,
+                    require=["store.db", "lm.prefetch", "lm.noprefetch", "lm.none", "op.pf", "op.wait", "op.bg", "op.readprio", "op.readall",
+                             "result.pf.ok", "result.pf.requests", "result.pf.keys", "result.bg.ok", "files.prio", "files.multichunk"])],
     rule="generated tars (1-7 regular files of 0-45 KB in up to 3 directory levels, implicit parents, a hardlink, a symlink) built with the real "
          "estargz.Build / estargz.Writer (chunk size 1000..1 MiB, min-chunk-size 0/500/3000/20000, gzip or zstd:chunked; prefetch landmark with a random "
-         "prioritized list, no-prefetch landmark, or no landmark), resolved through the real layer.Resolver (memory metadata store; memory or directory "
+         "prioritized list, no-prefetch landmark, or no landmark), resolved through the real layer.Resolver (memory metadata store, and the bbolt store in the second harness; memory or directory "
          "caches with LRU 1/2/3/10, sync_add on/off; prefetch size, async threshold, registry chunk size, prefetch chunk size random with boundary bias) "
          "over an in-memory registry with a request log; scripts of Prefetch (1-4 concurrent callers; registry failing from an offset, or stalled until "
          "released), WaitForPrefetchCompletion (1-4 concurrent, 40 ms timeout), BackgroundFetch (1-4 concurrent, failing registry, prioritized tasks "
@@ -27,6 +31,7 @@ PROPS["C15"] = dict(
         "compressed sizes (C15_landmark_separates_offsets) and composes with C14_sort_layout; chunks tile their file (mk_chunks); both are re-checked on "
         "every generated layer (layout_ok)",
         "min-chunk-size layers: chunks sharing a compressed stream are cached together by the pre-reader, so cached key sets are compared as lower bounds there",
+        "layers without a landmark: decompressing the files that start inside the configured size reads behind it; those requests are not predicted (only that blob.Cache's requests come first and are exactly the model's), and under a registry fault the outcome of that phase is not predicted",
     ],
     level_text="Coq theorems over the hand-written model of layer.prefetch / blob.Cache / VerifiableReader.Cache / file.ReadAt / the chunk cache / the waiter: "
                "no-prefetch landmark => no request, nothing cached, waiter released; range = landmark offset, else min(configured, blob size); the writer puts every "
@@ -38,7 +43,7 @@ PROPS["C15"] = dict(
                "The script machine built from these definitions is run against the real layer every run; the clauses are re-checked model-free on the implementation.",
     level_note="Model (coq/Model/Prefetch.v) is hand-written. 'Never blocks forever' is proved as: the timeout step of a parked wait is enabled in every reachable state "
                "(timer firing = Go runtime). The registry-request prediction covers blob.Cache's requests exactly (for lossless compressed-blob caches) and constrains the "
-               "decompression phase only for landmark layers (nothing may follow). Only the memory metadata store is driven (the db store lives in /repo/cmd).",
+               "decompression phase only for landmark layers (nothing may follow). Both metadata stores are driven (the db store through harness/cmdmod/cmd/prefetchdb); min-chunk-size layers only with the memory store (the db store cannot read them: defect reported to C05).",
     technique="Coq proof: invariants preserved by every step (cache: lru subset of pending+disk, committed keys never leave pending+disk; waiter: 8-clause invariant), lifted to all "
               "histories by induction over fold_left; correspondence by vm_compute of the script machine on observed cases + model-free oracle",
     trusted=["fs/layer/layer.go (Prefetch, prefetch, WaitForPrefetchCompletion, BackgroundFetch, waiter), fs/remote/blob.go (Cache, cacheAt, walkChunks), fs/reader/reader.go "
